@@ -271,6 +271,10 @@ func checkRunner(t ev.T, test string, c RunnerCase) {
 		}
 		ev.Class("around-or-after-deadline")
 	}
+	// the stop signal is triggered: an action still polling it a full second after the deadline must have seen it
+	if c.Observes && !o.sawSignal.Load() && ta.After(earliestSignal.Add(eps+time.Second)) {
+		ev.Fail(t, prop, test, c, "the action polled its stop signal until %v after the deadline and never saw it (runner returned %v)", ta.Sub(earliestSignal).Round(time.Millisecond), err)
+	}
 	// no early verdict: a timeout / cancelled kind cannot be reported before the earliest signal instant
 	if isCtxKind && returnedAt.Before(earliestSignal.Add(-100*time.Microsecond)) {
 		ev.Fail(t, prop, test, c, "runner returned %v as early as %v before the deadline / parent cancellation", err, earliestSignal.Sub(returnedAt))
@@ -295,12 +299,19 @@ func checkRunner(t ev.T, test string, c RunnerCase) {
 func genRunner(t *rapid.T) RunnerCase {
 	c := RunnerCase{Runner: rapid.SampledFrom([]string{"Timeout", "Timeout", "TimeoutAndContext", "TimeoutAndCancelStore", "ParallelCheck"}).Draw(t, "runner")}
 	c.TimeoutUs = rapid.IntRange(200, 5000).Draw(t, "timeout_us")
+	if rapid.IntRange(0, 11).Draw(t, "no-time-at-all") == 0 {
+		c.TimeoutUs = 0 // a timeout of zero is a deadline that has already passed, not "no deadline"
+	}
 	c.OffsetUs = rapid.IntRange(-2000, 2000).Draw(t, "offset_us")
 	if -c.OffsetUs > c.TimeoutUs {
 		c.OffsetUs = -c.TimeoutUs
 	}
 	c.Outcome = rapid.SampledFrom([]string{"nil", "error"}).Draw(t, "outcome")
 	c.Observes = rapid.Bool().Draw(t, "observes")
+	if c.Observes && rapid.IntRange(0, 9).Draw(t, "patient") == 0 {
+		// an action that keeps working (and polling its stop signal) for three seconds past the deadline unless it is told to stop
+		c.OffsetUs = 3000000
+	}
 	c.Parent = rapid.SampledFrom([]string{"live", "live", "live", "cancelled-before", "cancelled-during"}).Draw(t, "parent")
 	if c.Parent == "cancelled-during" {
 		c.ParentUs = rapid.IntRange(-c.TimeoutUs, 1000).Draw(t, "parent_us")
